@@ -128,8 +128,12 @@ fn close_one<T: FromSrc>(st: u128, srcs: &[Src], unit_ok: &mut bool) -> Vec<Obse
         0 => {
             let mut h: Histogram<T, ExponentialAggregationStrategy> = Histogram::new(ExponentialAggregationStrategy::new());
             for (i, s) in srcs.iter().enumerate() {
-                // add_value takes impl Borrow<T>: alternate between by-value and by-reference
-                if i % 2 == 0 { h.add_value(T::from_src(s)); } else { let v = T::from_src(s); h.add_value(&v); }
+                // add_value takes impl Borrow<T>: by value, by reference, and through the AggregateValue impl
+                match i % 3 {
+                    0 => h.add_value(T::from_src(s)),
+                    1 => { let v = T::from_src(s); h.add_value(&v); }
+                    _ => <Histogram<T, ExponentialAggregationStrategy> as AggregateValue<T>>::insert(&mut h, T::from_src(s)),
+                }
             }
             observe(&h.close())
         }
@@ -140,7 +144,11 @@ fn close_one<T: FromSrc>(st: u128, srcs: &[Src], unit_ok: &mut bool) -> Vec<Obse
         }
         _ => {
             let mut h: Histogram<T, SortAndMerge> = if srcs.len() % 2 == 0 { Histogram::new(SortAndMerge::new()) } else { Histogram::default() };
-            for s in srcs { h.add_value(T::from_src(s)); }
+            for (i, s) in srcs.iter().enumerate() {
+                // value.rs: Distribution is the AggregateValue strategy for Histogram<T, SortAndMerge>
+                if i % 2 == 0 { h.add_value(T::from_src(s)); }
+                else { <metrique_aggregation::value::Distribution as AggregateValue<T>>::insert(&mut h, T::from_src(s)); }
+            }
             observe(&h.close())
         }
     };
@@ -440,13 +448,33 @@ pub fn run(ctx: &Ctx) {
     }
 
     // (C) random multisets for every strategy and source type
-    let nrand = if thorough { 12000 } else { 1500 };
+    let nrand = if thorough { 8000 } else { 1500 };
     for k in 0..nrand {
         let st = rng.below(3);
         let ty = *rng.pick(&TYS);
         let wild = k % 5 == 4;
-        let max = if st == 2 { 40 } else if thorough { 300 } else { 80 };
+        let max = if st == 2 { 40 } else if thorough { 200 } else { 80 };
         let srcs = gen_multiset(&mut rng, ty, st, &rs, max, wild);
+        emit(&mut out, case_close(st, ty, &srcs));
+    }
+
+    // (F) equality corner cases: signed zeros, NaN, adjacent floats, infinities, duplicates — mostly for
+    //     sort-and-merge (equal values must merge into one run, NaN must disappear)
+    for k in 0..(if thorough { 1500 } else { 300 }) {
+        let x = domain_value(&mut rng, &rs);
+        let palette = [0.0, -0.0, f64::NAN, 1.0, -1.0, 5e-324, -5e-324, f64::INFINITY, f64::NEG_INFINITY, x, x,
+            f64::from_bits(x.to_bits() + 1), -x, f64::from_bits(0x7ff0_0000_0000_0001), f64::from_bits(0xfff8_0000_0000_0000)];
+        let len = rng.range(2, 12) as usize;
+        let ty = if k % 2 == 0 { Ty::F64 } else { Ty::Obs };
+        let st = if k % 4 == 3 { rng.below(2) } else { 2 };
+        let srcs: Vec<Src> = (0..len).map(|_| {
+            let v = *rng.pick(&palette[..(if k % 3 == 0 { 3 } else { palette.len() })]);
+            if ty == Ty::Obs && rng.chance(1, 3) {
+                let occ = rng.range(1, 5);
+                Src::Obs(Observation::Repeated { total: v * occ as f64, occurrences: occ })
+            } else { Src::Obs(Observation::Floating(v)) }
+        }).collect();
+        out.count("equality_corner_cases");
         emit(&mut out, case_close(st, ty, &srcs));
     }
 
